@@ -377,6 +377,38 @@ def h_shutdown(ctx, sizes, script):
   ctx.witness('done')
 
 
+def h_connecting(ctx, nmsgs, script, how):
+  """a worker whose non-blocking connect() is still in progress (PersistentIOWorker between construction and connect completion): what the
+  client queues meanwhile is written, in order, once the connection is up - followed by what the connect handler sends"""
+  core = env.get_core()
+  iow = ctx.pox('pox.lib.ioworker')
+  class S(ScriptSock):
+    def send(self, data, flags=0):
+      o = self.script.pop(0) if self.script else 'all'
+      self.calls += 1
+      if o == 'again': raise OSError(errno.EAGAIN, 'would block')
+      k = len(data) if o == 'all' else min(int(o), len(data))
+      self.accepted.append(data[:k]); return k
+    def recv(self, n, flags=0): raise OSError(errno.EAGAIN, 'would block')      # MSG_PEEK on a connected, silent socket
+  sock = S(script)
+  w = iow.RecocoIOWorker(sock)
+  w.pinger = env.DummyPinger()
+  w.on_close = lambda worker: None
+  hello = b'<HELLO>'
+  w.connect_handler = lambda worker: worker.send(hello)
+  w._connecting = True
+  class Loop: _BUF_SIZE = 8192
+  loop = Loop(); loop._workers = {w}
+  msgs = [ctx.bytes('m%d' % i, 6 + 2 * i) for i in range(nmsgs)]
+  for i, m in enumerate(msgs): (w.send if (how == 'send' or i % 2) else w.send_fast)(m)
+  ctx.check('nothing is written before the connection is up', sock.accepted == [])
+  for _ in range(len(script) + 6):
+    if not w.closed and (w._connecting or w._ready_to_send): w._do_send(loop)
+  got = [x for part in sock.accepted for x in list(part)]; exp = [x for m in msgs for x in list(m)] + list(hello)
+  ctx.check('everything queued while connecting was written, then the connect handler\'s data', len(got) == len(exp) and ctx.Eq(env.tobytes(ctx, got), env.tobytes(ctx, exp)))
+  ctx.witness('done')
+
+
 def obligations(tier):
   thorough = tier != 'quick'
   cplans = ['ssf', 'sfs', 'sffs', 'ssfsf'] + (['sssff', 'sfsfsf', 'ssffs'] if thorough else [])
@@ -390,6 +422,8 @@ def obligations(tier):
   sh = [dict(sizes=[9000], script=[]), dict(sizes=[8192], script=[]), dict(sizes=[5000, 5000, 5024], script=[]), dict(sizes=[20000], script=[8192, 'again', 8192]),
         dict(sizes=[9000], script=[3000, 'again', 100]), dict(sizes=[36], script=[])]
   return [
+    Obligation('O6_connecting', h_connecting, [dict(nmsgs=n, script=sc, how=h) for n, sc, h in ((2, [], 'send'), (2, [3, 'again', 4], 'mixed'), (1, [], 'mixed'), (3, [1], 'send'))], witnesses=('done',),
+               max_decisions=20000, desc='data queued while the non-blocking connect is in progress is written, in order, once the connection is up'),
     Obligation('O5_shutdown', h_shutdown, sh, witnesses=('done',), max_decisions=20000,
                desc='IOWorker.shutdown() with more than one I/O-buffer of data queued: everything is written before the socket is shut down, once'),
     Obligation('O3_threads', h_threads, tcases, witnesses=('done', 'bound-reached'), max_decisions=20000, mode='int', path_seconds=120,
